@@ -32,7 +32,11 @@ func init() {
 		MinDistinct: 50,
 		Plan:        func(tier string) []core.Suite { return c11Plan(tier).suites() },
 		Run: func(c *core.Ctx) {
-			c11Check(c, histScenario{History: c11Plan(c.Tier).history(c)})
+			mode := ""
+			if c.Suite == "rand" {
+				mode = map[int]string{4: "prefix", 5: "readd"}[c.Index%6]
+			}
+			c11Check(c, histScenario{History: c11Plan(c.Tier).history(c), LeafMode: mode})
 		},
 		Replay: func(c *core.Ctx, raw json.RawMessage) {
 			s, err := parseHistScenario(raw)
@@ -147,6 +151,10 @@ func diffU64(a, b []uint64) []uint64 {
 func c11Check(c *core.Ctx, s histScenario) {
 	c.SetScenario(s)
 	w := NewWorld(s.History.Tag, nil)
+	w.SetLeafMode(s.LeafMode)
+	if s.LeafMode != "" {
+		c.Count("histories_with_leaf_mode_"+s.LeafMode, 1)
+	}
 	for bi, b := range s.History.Blocks {
 		rec := w.PrepareBlock(b)
 		want, _ := rm.ExpectUpdateData(rec.Before, b.Dels, rec.AddHashes)
